@@ -913,6 +913,13 @@ def m_array(I, ctx, callee, args, crate):
     return VecV([I.call_value(ctx, args[1], [x]) for x in v.items])
 
 
+@M.on(r"^(core::)?bool::(then_some|then)$")
+def m_bool_then(I, ctx, callee, args, crate):
+    c = args[0]
+    if not ctx.branch(c, "bool-then"): return NONE
+    return Some(args[1]) if strip_generics(callee).endswith("then_some") else Some(I.call_value(ctx, args[1], []))
+
+
 @M.on(r"^(std|core)::ops::RangeInclusive::new$|^RangeInclusive::new$")
 def m_range_incl(I, ctx, callee, args, crate):
     return Struct("RangeInclusive", [args[0], args[1]], ["start", "end"])
@@ -1569,6 +1576,8 @@ def m_prim_checked(I, ctx, callee, args, crate):
     signed = ty in SINT
     a = I.deref(ctx, args[0])
     if meth in ("to_be_bytes", "to_le_bytes", "from_be_bytes", "from_le_bytes"):
+        if meth.startswith("to") and isinstance(a, int):
+            return VecV(list((a % (hi - lo)).to_bytes(bits // 8, "big" if "be" in meth else "little")))
         return Opaque("bytes-of", (meth, a)) if meth.startswith("to") else _from_bytes(ctx, a, hi, meth)
     b = I.deref(ctx, args[1]) if len(args) > 1 else None
     fits = lambda r: (lo <= r < hi) if isinstance(r, int) else zand(r >= lo, r < hi)
